@@ -1,0 +1,446 @@
+//go:build verif
+// +build verif
+
+package ipfix
+
+// Verification hook (build tag `verif` only; run with -race): stresses the real template cache —
+// insert, retrieve, IRPC.Get and Dump — from many goroutines over overlapping and disjoint keys and
+// checks every observation.
+//
+// Line protocol (see /verif/BUILDING.md, "runner"): case lines are read from $VERIF_IN, one
+// "<impl line>\t<verdict>" line per case is written to $VERIF_OUT.
+//
+//	cachestress <seed> <goroutines> <overlap%> <ops per goroutine> <max ms>
+//
+// Every template carries, in its fields, the key it was announced for, the goroutine that announced
+// it and that goroutine's per-key sequence number, redundantly, so that a torn / foreign / stale
+// template is recognisable:
+//
+//	complete   FieldCount == len(FieldSpecifiers) == 2 + ver%5, every specifier carries (key, ver),
+//	           the scope specifier carries (ver>>16, key)
+//	own key    the key encoded in the template is the key looked up
+//	not stale  seq >= the last seq that writer had completed (insert returned) for that key before the
+//	           lookup started; a miss is only allowed if nobody had completed an insert for that key
+//	announced  seq <= the last seq that writer has started
+//
+// Every dump file is read back (encoding/json and the real GetCache): it must hold shardNo shards
+// of complete templates, each stored under its own hash in its own shard, none staler than what was
+// completed before the Dump call started. A data race reported by the race detector fails the case
+// (the subtest is marked failed by the testing package); a runtime fatal error ("concurrent map
+// iteration and map write") kills the process, which the check engine reports for the case.
+
+import (
+	"bufio"
+	"encoding/json"
+	"fmt"
+	"io/ioutil"
+	"math/rand"
+	"net"
+	"os"
+	"path/filepath"
+	"strconv"
+	"strings"
+	"sync"
+	"sync/atomic"
+	"testing"
+	"time"
+)
+
+const verifMaxG = 64
+
+type verifKey struct {
+	id   uint16
+	addr net.IP
+	// per writer goroutine: last sequence number started / completed (insert returned)
+	started [verifMaxG]uint32
+	acked   [verifMaxG]uint32
+	mu      sync.Mutex // serialises the inserts of the "ordered" pseudo-writer (index verifMaxG-1)
+	seqOrd  uint32
+}
+
+func verifTemplate(j int, ver uint32) TemplateRecord {
+	n := 2 + int(ver%5)
+	tr := TemplateRecord{
+		TemplateID:      uint16(256 + j),
+		FieldCount:      uint16(n),
+		ScopeFieldCount: uint16(ver >> 16),
+	}
+	tr.FieldSpecifiers = make([]TemplateFieldSpecifier, n)
+	for i := range tr.FieldSpecifiers {
+		tr.FieldSpecifiers[i] = TemplateFieldSpecifier{ElementID: uint16(j), Length: uint16(ver)}
+	}
+	tr.ScopeFieldSpecifiers = []TemplateFieldSpecifier{{ElementID: uint16(ver >> 16), Length: uint16(j)}}
+	return tr
+}
+
+// verifDecode checks completeness and returns (key index, version)
+func verifDecode(tr *TemplateRecord) (int, uint32, error) {
+	if len(tr.FieldSpecifiers) == 0 || len(tr.ScopeFieldSpecifiers) != 1 {
+		return 0, 0, fmt.Errorf("incomplete template: %d field specifiers, %d scope specifiers", len(tr.FieldSpecifiers), len(tr.ScopeFieldSpecifiers))
+	}
+	j := int(tr.FieldSpecifiers[0].ElementID)
+	ver := uint32(tr.ScopeFieldCount)<<16 | uint32(tr.FieldSpecifiers[0].Length)
+	if int(tr.TemplateID) != 256+j {
+		return j, ver, fmt.Errorf("inconsistent template: id %d but fields say key %d", tr.TemplateID, j)
+	}
+	if int(tr.FieldCount) != len(tr.FieldSpecifiers) || len(tr.FieldSpecifiers) != 2+int(ver%5) {
+		return j, ver, fmt.Errorf("incomplete template: FieldCount %d, %d specifiers, version %d wants %d", tr.FieldCount, len(tr.FieldSpecifiers), ver, 2+ver%5)
+	}
+	for i, f := range tr.FieldSpecifiers {
+		if int(f.ElementID) != j || f.Length != uint16(ver) {
+			return j, ver, fmt.Errorf("torn template: specifier %d says (key %d, ver %d), specifier 0 says (key %d, ver %d)", i, f.ElementID, f.Length, j, uint16(ver))
+		}
+	}
+	s := tr.ScopeFieldSpecifiers[0]
+	if s.ElementID != uint16(ver>>16) || int(s.Length) != j {
+		return j, ver, fmt.Errorf("torn template: scope specifier says (ver>>16 %d, key %d), fields say (%d, %d)", s.ElementID, s.Length, ver>>16, j)
+	}
+	return j, ver, nil
+}
+
+type verifStats struct {
+	inserts, lookups, hits, rpcs, dumps, dumpTemplates uint64
+}
+
+type verifFail struct {
+	mu  sync.Mutex
+	msg string
+}
+
+func (f *verifFail) set(format string, a ...interface{}) {
+	f.mu.Lock()
+	if f.msg == "" {
+		f.msg = fmt.Sprintf(format, a...)
+	}
+	f.mu.Unlock()
+}
+
+func (f *verifFail) get() string {
+	f.mu.Lock()
+	defer f.mu.Unlock()
+	return f.msg
+}
+
+// verifCheckObserved applies the lookup oracle
+func verifCheckObserved(what string, keys []*verifKey, j int, before *[verifMaxG]uint32, tr *TemplateRecord, ok bool, fail *verifFail) {
+	k := keys[j]
+	if !ok {
+		for w := 0; w < verifMaxG; w++ {
+			if before[w] != 0 {
+				fail.set("%s missed key %d although writer %d had completed insert #%d before the lookup started", what, j, w, before[w])
+				return
+			}
+		}
+		return
+	}
+	j2, ver, err := verifDecode(tr)
+	if err != nil {
+		fail.set("%s of key %d: %v", what, j, err)
+		return
+	}
+	if j2 != j {
+		fail.set("%s of key %d returned the template of key %d (foreign template)", what, j, j2)
+		return
+	}
+	w, seq := int(ver&63), ver>>6
+	if seq < before[w] {
+		fail.set("%s of key %d returned writer %d's insert #%d, superseded by its insert #%d completed before the lookup started (stale)", what, j, w, seq, before[w])
+		return
+	}
+	if seq > atomic.LoadUint32(&k.started[w]) || seq == 0 {
+		fail.set("%s of key %d returned writer %d's insert #%d, which was never started (last started #%d)", what, j, w, seq, atomic.LoadUint32(&k.started[w]))
+	}
+}
+
+func verifSnapshot(k *verifKey, into *[verifMaxG]uint32) {
+	for w := 0; w < verifMaxG; w++ {
+		into[w] = atomic.LoadUint32(&k.acked[w])
+	}
+}
+
+type verifDisk struct {
+	Cache []*struct {
+		Templates map[uint32]Data
+	}
+	ShardNo int
+}
+
+// verifCheckDump reads a dump file back and applies the dump oracle
+func verifCheckDump(cache MemCache, keys []*verifKey, file string, before [][verifMaxG]uint32, st *verifStats, fail *verifFail) {
+	b, err := ioutil.ReadFile(file)
+	if err != nil {
+		fail.set("dump file unreadable: %v", err)
+		return
+	}
+	var disk verifDisk
+	if err := json.Unmarshal(b, &disk); err != nil {
+		fail.set("dump file is not valid JSON: %v", err)
+		return
+	}
+	if disk.ShardNo != shardNo || len(disk.Cache) != shardNo {
+		fail.set("dump file has ShardNo %d and %d shards, want %d", disk.ShardNo, len(disk.Cache), shardNo)
+		return
+	}
+	loaded := GetCache(file) // the real loader
+	if len(loaded) != shardNo {
+		fail.set("GetCache(dump) returned %d shards", len(loaded))
+		return
+	}
+	seen := make(map[int]uint32)
+	for si, sh := range loaded {
+		if sh == nil || sh.Templates == nil {
+			fail.set("GetCache(dump): shard %d is nil", si)
+			return
+		}
+		if len(sh.Templates) != len(disk.Cache[si].Templates) {
+			fail.set("GetCache(dump): shard %d has %d templates, the file has %d", si, len(sh.Templates), len(disk.Cache[si].Templates))
+			return
+		}
+		for h, d := range sh.Templates {
+			tr := d.Template
+			j, ver, err := verifDecode(&tr)
+			if err != nil {
+				fail.set("dump holds an unusable template in shard %d: %v", si, err)
+				return
+			}
+			if j >= len(keys) {
+				fail.set("dump holds a template of unknown key %d", j)
+				return
+			}
+			wantShard, wantHash := cache.getShard(keys[j].id, keys[j].addr)
+			if wantHash != h || cache[si] != wantShard {
+				fail.set("dump holds the template of key %d under hash %d in shard %d, not where retrieve looks for it (hash %d)", j, h, si, wantHash)
+				return
+			}
+			seen[j] = ver
+			atomic.AddUint64(&st.dumpTemplates, 1)
+		}
+	}
+	// one instant: nothing staler than what was complete before Dump was called
+	for j := range keys {
+		ver, ok := seen[j]
+		if !ok {
+			for w := 0; w < verifMaxG; w++ {
+				if before[j][w] != 0 {
+					fail.set("dump lacks key %d although writer %d had completed insert #%d before Dump was called", j, w, before[j][w])
+					return
+				}
+			}
+			continue
+		}
+		w, seq := int(ver&63), ver>>6
+		if seq < before[j][w] {
+			fail.set("dump holds writer %d's insert #%d of key %d, superseded by its insert #%d completed before Dump was called", w, seq, j, before[j][w])
+			return
+		}
+		if seq == 0 || seq > atomic.LoadUint32(&keys[j].started[w]) {
+			fail.set("dump holds writer %d's insert #%d of key %d, which was never started", w, seq, j)
+			return
+		}
+	}
+}
+
+func verifCacheCase(dir string, caseNo int, line string) (string, string) {
+	f := strings.Fields(line)
+	if len(f) != 6 || !strings.HasPrefix(f[0], "cachestress") {
+		return "bad-op", "fail:bad case line"
+	}
+	seed, _ := strconv.ParseInt(f[1], 10, 64)
+	g, _ := strconv.Atoi(f[2])
+	overlap, _ := strconv.Atoi(f[3])
+	ops, _ := strconv.Atoi(f[4])
+	ms, _ := strconv.Atoi(f[5])
+	if g < 2 || g > verifMaxG-1 || ops < 1 || ms < 1 {
+		return "bad-op", "fail:bad parameters"
+	}
+	cache := GetCache(filepath.Join(dir, "no-such-file"))
+	rpc := NewRPC(cache)
+
+	// keys: a shared set and a private set per goroutine; distinct hashes (equal FNV-1 of two keys is
+	// the separate finding K1 of C04, not this property)
+	nShared, nPriv := 24, 6
+	var keys []*verifKey
+	hashes := map[uint32]bool{}
+	for j := 0; len(keys) < nShared+g*nPriv; j++ {
+		k := &verifKey{id: uint16(256 + len(keys)), addr: net.IPv4(10, byte(j>>16), byte(j>>8), byte(j)).To4()}
+		_, h := cache.getShard(k.id, k.addr)
+		if hashes[h] {
+			continue
+		}
+		hashes[h] = true
+		keys = append(keys, k)
+	}
+	var st verifStats
+	fail := &verifFail{}
+	var wg sync.WaitGroup
+	stop := make(chan struct{})
+	deadline := time.Now().Add(time.Duration(ms) * time.Millisecond)
+	for w := 0; w < g; w++ {
+		wg.Add(1)
+		go func(w int) {
+			defer wg.Done()
+			r := rand.New(rand.NewSource(seed*1000 + int64(w)))
+			role := w % 8 // 0: dumper, 1-3: writers, 4-5: readers, 6: rpc reader, 7: mixed
+			var before [verifMaxG]uint32
+			pick := func() int {
+				if r.Intn(100) < overlap {
+					return r.Intn(nShared)
+				}
+				return nShared + w*nPriv + r.Intn(nPriv)
+			}
+			for op := 0; op < ops; op++ {
+				if op%16 == 0 {
+					select {
+					case <-stop:
+						return
+					default:
+					}
+					if time.Now().After(deadline) || fail.get() != "" {
+						return
+					}
+				}
+				kind := role
+				if role == 7 {
+					kind = 1 + r.Intn(6)
+				}
+				switch {
+				case kind == 0: // Dump + load back
+					if op%4 != 0 {
+						// in between, behave as a reader
+						j := pick()
+						verifSnapshot(keys[j], &before)
+						tr, ok := cache.retrieve(keys[j].id, keys[j].addr)
+						atomic.AddUint64(&st.lookups, 1)
+						verifCheckObserved("retrieve", keys, j, &before, &tr, ok, fail)
+						continue
+					}
+					snap := make([][verifMaxG]uint32, len(keys))
+					for j := range keys {
+						verifSnapshot(keys[j], &snap[j])
+					}
+					file := filepath.Join(dir, fmt.Sprintf("dump-%d-%d.json", caseNo, w))
+					if err := cache.Dump(file); err != nil {
+						fail.set("Dump failed: %v", err)
+						return
+					}
+					atomic.AddUint64(&st.dumps, 1)
+					verifCheckDump(cache, keys, file, snap, &st, fail)
+				case kind <= 3: // insert
+					j := pick()
+					k := keys[j]
+					if j < nShared && r.Intn(2) == 0 {
+						// ordered pseudo-writer: inserts of this class are serialised by the harness, so
+						// their sequence numbers are totally ordered and staleness is checked exactly
+						k.mu.Lock()
+						k.seqOrd++
+						seq := k.seqOrd
+						atomic.StoreUint32(&k.started[verifMaxG-1], seq)
+						cache.insert(k.id, k.addr, verifTemplate(j, seq<<6|uint32(verifMaxG-1)))
+						atomic.StoreUint32(&k.acked[verifMaxG-1], seq)
+						k.mu.Unlock()
+					} else {
+						seq := atomic.LoadUint32(&k.started[w]) + 1
+						atomic.StoreUint32(&k.started[w], seq)
+						cache.insert(k.id, k.addr, verifTemplate(j, seq<<6|uint32(w)))
+						atomic.StoreUint32(&k.acked[w], seq)
+					}
+					atomic.AddUint64(&st.inserts, 1)
+				case kind <= 5: // retrieve
+					j := pick()
+					verifSnapshot(keys[j], &before)
+					tr, ok := cache.retrieve(keys[j].id, keys[j].addr)
+					atomic.AddUint64(&st.lookups, 1)
+					if ok {
+						atomic.AddUint64(&st.hits, 1)
+					}
+					verifCheckObserved("retrieve", keys, j, &before, &tr, ok, fail)
+				default: // peer lookup
+					j := pick()
+					verifSnapshot(keys[j], &before)
+					var tr TemplateRecord
+					err := rpc.Get(RPCRequest{ID: keys[j].id, IP: keys[j].addr}, &tr)
+					atomic.AddUint64(&st.rpcs, 1)
+					if err != nil && err != errNotAvail {
+						fail.set("IRPC.Get: unexpected error %v", err)
+						return
+					}
+					verifCheckObserved("IRPC.Get", keys, j, &before, &tr, err == nil, fail)
+				}
+			}
+		}(w)
+	}
+	done := make(chan struct{})
+	go func() { wg.Wait(); close(done) }()
+	select {
+	case <-done:
+	case <-time.After(time.Duration(ms)*time.Millisecond + 60*time.Second):
+		close(stop)
+		return "fuel", "fail:hang goroutines did not finish (deadlock?)"
+	}
+	// a final dump with everything quiescent must hold exactly the last completed inserts
+	snap := make([][verifMaxG]uint32, len(keys))
+	for j := range keys {
+		verifSnapshot(keys[j], &snap[j])
+	}
+	file := filepath.Join(dir, fmt.Sprintf("dump-%d-final.json", caseNo))
+	if err := cache.Dump(file); err != nil {
+		fail.set("final Dump failed: %v", err)
+	} else {
+		st.dumps++
+		verifCheckDump(cache, keys, file, snap, &st, fail)
+	}
+	if m := fail.get(); m != "" {
+		return "bad", "fail:" + m
+	}
+	return "ok", fmt.Sprintf("ok inserts=%d lookups=%d hits=%d rpc=%d dumps=%d dumped-templates=%d",
+		st.inserts, st.lookups, st.hits, st.rpcs, st.dumps, st.dumpTemplates)
+}
+
+func TestVerifCache(t *testing.T) {
+	in, out := os.Getenv("VERIF_IN"), os.Getenv("VERIF_OUT")
+	if in == "" || out == "" {
+		t.Skip("VERIF_IN / VERIF_OUT not set")
+	}
+	fi, err := os.Open(in)
+	if err != nil {
+		t.Fatal(err)
+	}
+	defer fi.Close()
+	fo, err := os.Create(out)
+	if err != nil {
+		t.Fatal(err)
+	}
+	defer fo.Close()
+	dir, err := ioutil.TempDir("", "vcache")
+	if err != nil {
+		t.Fatal(err)
+	}
+	defer os.RemoveAll(dir)
+	sc := bufio.NewScanner(fi)
+	caseNo := 0
+	for sc.Scan() {
+		line := sc.Text()
+		if i := strings.IndexByte(line, '\t'); i >= 0 {
+			line = line[:i]
+		}
+		if line == "new" {
+			fmt.Fprintln(fo, "new\t")
+			continue
+		}
+		caseNo++
+		var impl, verdict string
+		// one subtest per case: the testing package fails the subtest when the race detector
+		// reported a race while it ran
+		passed := t.Run(fmt.Sprintf("case%d", caseNo), func(t *testing.T) {
+			impl, verdict = verifCacheCase(dir, caseNo, line)
+			if !strings.HasPrefix(verdict, "ok") {
+				t.Log(verdict)
+			}
+		})
+		if !passed && strings.HasPrefix(verdict, "ok") {
+			impl, verdict = "race", "fail:DATA RACE reported by the race detector during this case (see go test output)"
+		}
+		fmt.Fprintf(fo, "%s\t%s\n", impl, strings.ReplaceAll(verdict, "\n", " "))
+		fo.Sync()
+	}
+}
